@@ -97,6 +97,15 @@ def main(tier, rep):
                               ("repoint", 0), ("call", "gets", None, None, "all"), ("call", "quit", None, None, "all"),
                               ("call", "set", False, None, "all")]
                     progs.append((L.Cfg(kind=kind, tls=tls), steps))
+    # an error line answered to one command of a pipelined batch (always run: the batch operations are few)
+    for kind in L.KINDS:
+        for op, nr in (("delete_many", False), ("set_many", False), ("get_many", None)):
+            for idx in (0, 1, 2):
+                for rf in ("client_error", "server_error", "error"):
+                    for seg in ("all", "bytes"):
+                        steps = [("call", "set", False, None, "all"), ("call", op, nr, {("reply", idx): rf}, seg), ("tick", 1)]
+                        steps += [("call", f[0], f[1], None, seg) for f in L.FOLLOWUPS[(idx + len(rf)) % len(L.FOLLOWUPS)] if L.has_op(kind, f[0])]
+                        progs.append((L.Cfg(kind=kind), steps))
     traces = [L.run_program(cfg, steps) for cfg, steps in progs]
     # a HashClient that gives up on its server (retry_attempts exhausted) while the server is coming back: whatever
     # connection the last probes opened is closed by close()
